@@ -289,7 +289,7 @@ func (x *Engine) frameObligations(fr *Frame, fs *FuncSpec, ret *State, env map[s
 	sort.Strings(keys)
 	a0 := x.get(fr.entry, "$alloc")
 	for _, k := range keys {
-		if strings.HasPrefix(k, "$") || strings.HasPrefix(k, "Once:") || whole[k] || k == "ghost:clock_ms" || k == "ghost:clock_ns" {
+		if strings.HasPrefix(k, "$") || strings.HasPrefix(k, "Once:") || strings.HasPrefix(k, "Iter:") || whole[k] || k == "ghost:clock_ms" || k == "ghost:clock_ns" {
 			continue
 		}
 		fin, ini := x.get(ret, k), x.get(fr.entry, k)
